@@ -1170,3 +1170,14 @@ package core
 //@   assert[C06+C02.ix_load_decodes_each_record_afresh] at "json.Unmarshal(": x == nil
 //@ func (*LinearState).Load
 //@   assert[C06+C02.lin_load_decodes_each_record_afresh] at "json.Unmarshal(": m == nil
+
+// C08/C10: whatever is removed from storage is removed through rem(), which runs the dependents cascade: a record purged at
+// load time must not leave its dependents (a rule's "disabled" flag, its deleteWith facts) behind.
+// KNOWN FINDING D50: IndexedState.Load purges a record that expired while the location was not in memory with a bare
+// Store.Remove (no cascade).
+//@ func (*IndexedState).Load
+//@   assume-entry cascadeId == "?none"
+//@   ensures[C08+C10.ix_load_purges_with_the_cascade] stRems > old(stRems) ==> cascadeId != "?none"
+// (LinearState.Load purges nothing: expired records are dropped by the first search that meets them, through rem())
+//@ func (*LinearState).Load
+//@   ensures[C08+C10.lin_load_removes_nothing_from_storage] stRems == old(stRems)
